@@ -188,6 +188,30 @@ def cmdCert (args : List String) : String :=
     | none => "bad-op"
   | _ => "bad-op"
 
+/-- The additive entry points (proof-extension round): compound assignment with ZERO, the four read-back
+spellings, point ± ZERO with the conversion back to Rep, and `ZERO - q`. -/
+def cmdExtra (args : List String) : String :=
+  match args with
+  | [u, r, v] =>
+    match u.toNat?, Rep.ofName? r with
+    | some u, some r =>
+      match parseVal? r v with
+      | some v =>
+        let q : Qty := ⟨u, v⟩
+        let optStr : Option Val → String := fun o => match o with
+          | some w => typedValStr w
+          | none => "none"
+        let ptTok : Outcome → String := fun o => match o with
+          | .ok (.point p) => s!"u{p.unit}:{typedValStr p.val}"
+          | o => outcomeTok o
+        s!"pe={outcomeTok (compoundWithZero .add q)} me={outcomeTok (compoundWithZero .sub q)} " ++
+        s!"inm={typedValStr q.inViaMaker} inr={optStr q.inRepExplicit} ind={typedValStr q.dataIn} " ++
+        s!"padd={ptTok (pointPlusZero false ⟨u, v⟩)} zpadd={ptTok (pointPlusZero true ⟨u, v⟩)} " ++
+        s!"zsub={outcomeTok (binop (.ar .sub) .zero (.qty q))}"
+      | none => "bad-op"
+    | _, _ => "bad-op"
+  | _ => "bad-op"
+
 end C19Cmd
 
 def dispatchC19 : List String → Option String
@@ -197,4 +221,5 @@ def dispatchC19 : List String → Option String
   | "c19" :: "eval" :: args => some (C19Cmd.cmdEval args)
   | "c19" :: "pair" :: args => some (C19Cmd.cmdPair args)
   | "c19" :: "cert" :: args => some (C19Cmd.cmdCert args)
+  | "c19" :: "extra" :: args => some (C19Cmd.cmdExtra args)
   | _ => none
